@@ -25,13 +25,17 @@ PLAN = {
             "thorough": [dict(tool="tsan", scale=0.5, part="threads"), dict(tool="miri", shards=16, san_cases=3, part="threads")]},
     "C04": {"quick": [dict(tool="tsan", scale=0.15, part="all", max_schedules=40)],
             "thorough": [dict(tool="tsan", scale=0.5, part="all"), dict(tool="miri", shards=16, san_cases=2, part="all")]},
-    "C16": {"quick": [dict(tool="tsan", scale=0.3, part="threads")],
-            "thorough": [dict(tool="tsan", scale=0.5, part="threads"), dict(tool="miri", shards=16, san_cases=3, part="threads")]},
+    # the async subscriber keeps a boxed lock future next to the lock it acquires: drop orders and queued futures
+    # (guard scripts, unwinding histories) run under ASan; Miri when thorough
+    "C16": {"quick": [dict(tool="tsan", scale=0.3, part="threads"), dict(tool="asan", scale=0.3, part="seq")],
+            "thorough": [dict(tool="tsan", scale=0.5, part="threads"), dict(tool="asan", scale=0.5, part="seq"),
+                         dict(tool="miri", shards=16, san_cases=3, part="all")]},
     # the unsafe code of the vector streams (reusable box, unreachable_unchecked) is reached by every
     # vector/adapter history: run the stream-end and wake workloads under ASan, and under Miri when thorough
     "C06": {"quick": [dict(tool="tsan", scale=0.3, part="threads")],
             "thorough": [dict(tool="tsan", scale=0.5, part="threads"), dict(tool="asan", scale=0.2, part="all")]},
-    "C08": {"quick": [dict(tool="asan", scale=0.5, part="all"), dict(tool="tsan", scale=0.3, part="threads")],
+    "C08": {"quick": [dict(tool="asan", scale=0.5, part="all"), dict(tool="tsan", scale=0.3, part="threads"),
+                      dict(tool="miri", shards=16, san_cases=3, part="seq")],
             "thorough": [dict(tool="asan", scale=0.3, part="all"), dict(tool="tsan", scale=0.5, part="threads"),
                          dict(tool="miri", shards=16, san_cases=12, part="all")]},
     "C14": {"quick": [dict(tool="asan", scale=0.3, part="all")],
